@@ -155,6 +155,9 @@ def generate(prop, rng):
             op.update(store=rng.choice(sorted(staged) or ["A"]), n=rng.randint(1, 4), tag=rng.randrange(10**6))
         elif kind == "evict":
             op.update(store=rng.choice(sorted(staged) or ["A"]), pick=rng.random(), prefer_dir=rng.random() < 0.6)
+        if faulty and kind == "migrate" and op.get("op") == "migrate" and rng.random() < 0.5:
+            # an object of the legacy store cannot be read back while it is being re-hashed
+            op["fault"] = {"nth": rng.randint(1, 5), "stage": "read", "exc": rng.choice(["EIO", "EACCES"])}
         if faulty and kind in ("stage", "xfer", "index_save", "stage_file") and rng.random() < 0.5:
             op["fault"] = {
                 "nth": rng.randint(1, 6),
@@ -302,6 +305,7 @@ def _apply_fault(ctx, op):
         "ack_lost": ("r_put_ack",),
         "protect": ("chmod",),
         "get_mid": ("r_get_mid",),
+        "read": ("open_r",),
     }[f["stage"]]
     ctx.seam.faults = [{"at": at, "match": None, "nth": f["nth"], "exc": f["exc"], "name": f["stage"], "count": f.get("count", 1)}]
 
